@@ -4,6 +4,7 @@ import (
 	"fmt"
 	"strings"
 
+	"verifh/gen"
 	"verifh/model"
 )
 
@@ -15,6 +16,11 @@ func ShrinkVals(vals []*model.Value, fails func([]*model.Value) bool) []*model.V
 			return false
 		}
 		budget--
+		for _, v := range cand {
+			if !gen.TopLevelOK(v) {
+				return false
+			}
+		}
 		defer func() { recover() }()
 		return fails(cand)
 	}
